@@ -2,7 +2,15 @@
  * (send_raw_udp_login, handshake_raw_udp) reached by including the file.  Linked with
  * -Wl,--wrap=sendto,--wrap=select,--wrap=recvfrom,--wrap=recv: the wrappers record what the
  * client sends, answer its 'i' (IP request) query with a DNS reply built by the repository's
- * own dns_decode/dns_encode, and feed it the scripted raw-login answer of the case line. */
+ * own dns_decode/dns_encode, and feed it the scripted raw-login answer of the case line.
+ *
+ * HV / HF (the glue from the server's version reply into the login): the real handshake_version
+ * runs on a scripted version reply (delivered as a DNS answer of type NULL, or TXT with the
+ * server's 't' + Base32 down-encoding), then the real handshake_login (first 'l' query, answered
+ * "LNAK") and the real send_raw_udp_login run with the seed handshake_version stored (HV), or
+ * the whole real client_handshake(raw_mode = 1) runs with a successful login answer, the
+ * server-address answer and the scripted raw-login answer (HF; system() of tun_setip/tun_setmtu is
+ * wrapped).  With these cases select() times out when nothing scripted is pending. */
 #include "hlib.h"
 #include <sys/select.h>
 #include "client.c"	/* found through -I <snapshot>/src */
@@ -20,6 +28,52 @@ static int raw_sent_count;
 static unsigned char raw_reply[4096];
 static size_t raw_reply_len;
 static int selects, recvs;
+/* coq/LoginGlue.v reads a plain char as signed and int as 32 bits (gcc, x86-64) */
+typedef char c19_char_is_signed[(char)-1 < 0 ? 1 : -1];
+typedef char c19_int_is_32_bits[sizeof(int) == 4 ? 1 : -1];
+
+/* HV / HF: scripted answers per query kind (first character of the query name) */
+static int scripted;		/* 1: select() reports only what is scripted */
+static char kind_txt;		/* 'N': raw rdata (NULL query), 'T': 't' + Base32 (TXT query) */
+static unsigned char ver_reply[256], login_reply[64];
+static size_t ver_reply_len, login_reply_len;
+static int raw_pending;
+static int raw_answer_set;	/* raw_reply is framed in recv() with the userid the client holds */
+static unsigned char raw_answer[256];
+static size_t raw_answer_len;
+static char login_qname[512];
+static int login_queries, version_queries;
+
+int __wrap_system(const char *cmd);
+int __wrap_system(const char *cmd)
+{
+	(void)cmd;
+	return 0;
+}
+
+/* the answer scripted for the pending query: 1 and *data / *len set, 0 when there is none */
+static int scripted_answer(struct query *q, const unsigned char **data, size_t *len)
+{
+	static const unsigned char ip_reply[5] = { 'I', 127, 0, 0, 1 };
+
+	memset(q, 0, sizeof(*q));
+	if (dnsq_len == 0)
+		return 0;
+	if (dns_decode(NULL, 0, q, QR_QUERY, (char *)dnsq, dnsq_len) < 0)
+		return 0;
+	switch (q->name[0]) {
+	case 'v': case 'V':
+		*data = ver_reply; *len = ver_reply_len;
+		return ver_reply_len > 0;
+	case 'l': case 'L':
+		*data = login_reply; *len = login_reply_len;
+		return login_reply_len > 0;
+	case 'i': case 'I':
+		*data = ip_reply; *len = sizeof(ip_reply);
+		return 1;
+	}
+	return 0;
+}
 
 ssize_t __wrap_sendto(int fd, const void *buf, size_t len, int flags, const struct sockaddr *to, socklen_t tolen)
 {
@@ -29,9 +83,22 @@ ssize_t __wrap_sendto(int fd, const void *buf, size_t len, int flags, const stru
 		memcpy(raw_sent, buf, len);
 		raw_sent_len = len;
 		raw_sent_count++;
+		raw_pending = 1;
 	} else {
 		memcpy(dnsq, buf, len);
 		dnsq_len = len;
+		if (scripted) {
+			struct query q;
+			memset(&q, 0, sizeof(q));
+			if (dns_decode(NULL, 0, &q, QR_QUERY, (char *)dnsq, dnsq_len) >= 0) {
+				if (q.name[0] == 'v' || q.name[0] == 'V')
+					version_queries++;
+				if ((q.name[0] == 'l' || q.name[0] == 'L') && login_queries++ == 0) {
+					strncpy(login_qname, q.name, sizeof(login_qname) - 1);
+					login_qname[sizeof(login_qname) - 1] = 0;
+				}
+			}
+		}
 	}
 	return len;
 }
@@ -39,6 +106,19 @@ ssize_t __wrap_sendto(int fd, const void *buf, size_t len, int flags, const stru
 int __wrap_select(int nfds, fd_set *r, fd_set *w, fd_set *e, struct timeval *tv)
 {
 	selects++;
+	if (scripted) {
+		struct query q;
+		const unsigned char *d;
+		size_t n;
+		if (raw_pending && raw_answer_set)
+			return 1;
+		if (scripted_answer(&q, &d, &n))
+			return 1;
+		dnsq_len = 0;	/* no answer to this query: time-out */
+		if (r)
+			FD_ZERO(r);
+		return 0;
+	}
 	return 1;	/* the descriptor is always readable */
 }
 
@@ -50,6 +130,29 @@ ssize_t __wrap_recvfrom(int fd, void *buf, size_t len, int flags, struct sockadd
 	char reply[5] = { 'I', 127, 0, 0, 1 };
 	int n;
 
+	if (scripted) {
+		const unsigned char *d;
+		size_t dl, space;
+		char enc[1024];
+		if (!scripted_answer(&q, &d, &dl))
+			return 0;
+		if (kind_txt == 'T') {
+			/* iodined.c write_dns for a TXT query with downenc 'T' */
+			enc[0] = 't';
+			space = sizeof(enc) - 2;
+			n = base32_ops.encode(enc + 1, &space, d, dl);	/* returns the number of characters */
+			n = dns_encode(buf, len, &q, QR_ANSWER, enc, 1 + n);
+		} else {
+			n = dns_encode(buf, len, &q, QR_ANSWER, (const char *)d, dl);
+		}
+		dnsq_len = 0;
+		if (from && fromlen && *fromlen >= sizeof(struct sockaddr_in)) {
+			memset(from, 0, sizeof(struct sockaddr_in));
+			from->sa_family = AF_INET;
+			*fromlen = sizeof(struct sockaddr_in);
+		}
+		return n;
+	}
 	memset(&q, 0, sizeof(q));
 	if (dnsq_len == 0)
 		return 0;
@@ -68,6 +171,16 @@ ssize_t __wrap_recvfrom(int fd, void *buf, size_t len, int flags, struct sockadd
 ssize_t __wrap_recv(int fd, void *buf, size_t len, int flags)
 {
 	recvs++;
+	if (scripted) {
+		raw_pending = 0;
+		if (!raw_answer_set)
+			return 0;
+		/* iodined.c send_raw: header, command | userid */
+		memcpy(raw_reply, raw_header, RAW_HDR_LEN);
+		raw_reply[RAW_HDR_CMD] = RAW_HDR_CMD_LOGIN | (userid & 0x0F);
+		memcpy(raw_reply + RAW_HDR_LEN, raw_answer, raw_answer_len);
+		raw_reply_len = RAW_HDR_LEN + raw_answer_len;
+	}
 	if (raw_reply_len > len)
 		return len;
 	memcpy(buf, raw_reply, raw_reply_len);
@@ -104,6 +217,12 @@ static int setup(char **argsp)
 	raw_sent_count = 0;
 	raw_reply_len = 0;
 	selects = recvs = 0;
+	scripted = 0;
+	kind_txt = 'N';
+	ver_reply_len = login_reply_len = raw_answer_len = 0;
+	raw_pending = raw_answer_set = 0;
+	login_queries = version_queries = 0;
+	login_qname[0] = 0;
 	(void)useed;
 	return 1;
 }
@@ -175,8 +294,136 @@ static void do_roundtrip(char *args)
 	printf(" %s\n", r ? "ACCEPT" : "REJECT");
 }
 
+/* the 19 bytes of the first login message: 'l' + Base32(userid, 16 hash bytes, 2 CMC bytes),
+ * decoded as iodined.c does it (unpack_data of the name without its first character, up to the
+ * top domain) */
+static int login_message(unsigned char *out, size_t outlen)
+{
+	size_t nl = strlen(login_qname), tl = strlen(cli_topdomain);
+
+	if (nl < tl + 3 || strcasecmp(login_qname + nl - tl, cli_topdomain) != 0 || login_qname[nl - tl - 1] != '.')
+		return -1;
+	return unpack_data((char *)out, outlen, login_qname + 1, nl - tl - 2, &base32_ops);
+}
+
+static void print_sent(int with_seed, int seed)
+{
+	unsigned char msg[64];
+	int n = login_message(msg, sizeof(msg));
+
+	if (with_seed)
+		printf(" seed=%u", (unsigned int)seed);
+	printf(" uid=%d", userid);
+	if (n != 19) {
+		printf(" BAD-LOGIN-MESSAGE len=%d queries=%d\n", n, login_queries);
+		return;
+	}
+	printf(" luid=%d dns=", msg[0]);
+	puthex(msg + 1, 16);
+	if (!sent_is_login()) {
+		printf(" BAD-RAW-LOGIN-DATAGRAM count=%d ", raw_sent_count);
+		puthex(raw_sent, raw_sent_len);
+	} else {
+		printf(" raw=");
+		puthex(raw_sent + RAW_HDR_LEN, 16);
+	}
+}
+
+/* common part of "passhex replyhex kind": password, scripted version reply, query type */
+static int setup_glue(char *args, char **rest)
+{
+	char *a = args, *sp;
+	size_t n;
+
+	n = unhex(args, in);
+	memset(cli_pass, 0, sizeof(cli_pass));
+	memcpy(cli_pass, in, n > 32 ? 32 : n);
+	sp = strchr(args, ' ');
+	if (!sp)
+		return 0;
+	a = sp + 1;
+	n = unhex(a, in);
+	if (n == 0 || n > sizeof(ver_reply))
+		return 0;
+	sp = strchr(a, ' ');
+	if (!sp || (sp[1] != 'N' && sp[1] != 'T'))
+		return 0;
+	client_init();
+	client_set_password(cli_pass);
+	client_set_topdomain(cli_topdomain);
+	do_qtype = sp[1] == 'T' ? T_TXT : T_NULL;
+	userid = 0;
+	userid_char = '0';
+	userid_char2 = '0';
+	dnsq_len = raw_sent_len = raw_reply_len = 0;
+	raw_sent_count = selects = recvs = 0;
+	scripted = 1;
+	kind_txt = sp[1];
+	memcpy(ver_reply, in, n);
+	ver_reply_len = n;
+	login_reply_len = raw_answer_len = 0;
+	raw_pending = raw_answer_set = 0;
+	login_queries = version_queries = 0;
+	login_qname[0] = 0;
+	*rest = sp + 2;
+	return 1;
+}
+
+/* HV passhex replyhex kind -- handshake_version, then handshake_login (answer LNAK) and
+ * send_raw_udp_login with the seed it stored */
+static void do_glue(char *args)
+{
+	char *rest;
+	int seed = 0x5a5a5a5a, rv;
+
+	if (!setup_glue(args, &rest)) {
+		printf("BADCASE\n");
+		return;
+	}
+	memcpy(login_reply, "LNAK", 4);
+	login_reply_len = 4;
+	rv = handshake_version(5, &seed);
+	printf("rv=%d", rv);
+	if (rv == 0) {
+		handshake_login(5, seed);
+		send_raw_udp_login(5, seed);
+		print_sent(1, seed);
+	}
+	putchar('\n');
+	scripted = 0;
+}
+
+/* HF passhex replyhex kind answerhex -- the whole client_handshake in raw mode; answerhex is the
+ * payload of the server's raw-login answer */
+static void do_full(char *args)
+{
+	static const char ok[] = "10.9.0.1-10.9.0.2-1130-27";
+	char *rest;
+	int rv;
+
+	if (!setup_glue(args, &rest)) {
+		printf("BADCASE\n");
+		return;
+	}
+	while (*rest == ' ') rest++;
+	raw_answer_len = unhex(rest, raw_answer);
+	raw_answer_set = 1;
+	memcpy(login_reply, ok, sizeof(ok) - 1);
+	login_reply_len = sizeof(ok) - 1;
+	rv = client_handshake(5, 1, 0, 1200);
+	printf("rv=%d", rv);
+	if (rv == 0) {
+		print_sent(0, 0);
+		printf(" conn=%s", conn == CONN_RAW_UDP ? "RAW" : "DNS");
+	}
+	putchar('\n');
+	scripted = 0;
+}
+
 int handle_line(char *l)
 {
+	if (!strncmp(l, "HV ", 3)) { do_glue(l + 3); return 1; }
+	if (!strncmp(l, "HF ", 3)) { do_full(l + 3); return 1; }
 	if (!strncmp(l, "CU ", 3)) { do_up(l + 3); return 1; }
 	if (!strncmp(l, "CR ", 3)) { do_roundtrip(l + 3); return 1; }
 	return 0;
